@@ -18,15 +18,16 @@ import (
 // behaviours of a launched executable (see cmd/probeplugin)
 const (
 	bOK       = "ok"
-	bExit     = "exit"     // exits at once (K = exit status)
-	bSleep    = "sleep"    // never registers, lingers
-	bCloseFD  = "closefd"  // closes the socket without registering, lingers
-	bCfgFail  = "cfgfail"  // fails Configure
-	bSyncFail = "syncfail" // fails Synchronize
-	bDie      = "die"      // exits inside the handler of its K-th lifecycle event
-	bDieAfter = "dieafter" // exits right after answering its K-th lifecycle event
-	bHang     = "hang"     // never answers its K-th lifecycle event
-	bGarbage  = "garbage"  // executable regular file that is no program: fails to start
+	bExit     = "exit"        // exits at once (K = exit status)
+	bSleep    = "sleep"       // never registers, lingers
+	bCloseFD  = "closefd"     // closes the socket without registering, lingers
+	bCfgFail  = "cfgfail"     // fails Configure
+	bSyncFail = "syncfail"    // fails Synchronize
+	bDie      = "die"         // exits inside the handler of its K-th lifecycle event
+	bDieAfter = "dieafter"    // exits right after answering its K-th lifecycle event
+	bLinger   = "lingerafter" // closes its connection right after answering its K-th lifecycle event, keeps running
+	bHang     = "hang"        // never answers its K-th lifecycle event
+	bGarbage  = "garbage"     // executable regular file that is no program: fails to start
 )
 
 // Mode is a set of permission bits; in JSON an octal string ("0755").
@@ -59,11 +60,24 @@ type Plugin struct {
 
 func (p Plugin) hasK() bool {
 	switch p.Behav {
-	case bExit, bDie, bDieAfter, bHang:
+	case bExit, bDie, bDieAfter, bLinger, bHang:
 		return true
 	}
 	return false
 }
+
+// failsAtEvent: the plugin starts up all right and fails at its K-th lifecycle event.
+func (p Plugin) failsAtEvent() bool {
+	switch p.Behav {
+	case bDie, bDieAfter, bLinger, bHang:
+		return true
+	}
+	return false
+}
+
+// failsAfterAnswer: the failure happens on the plugin's own initiative after it answered
+// its K-th event; nri notices it later (closed connection) and drops the plugin then.
+func (p Plugin) failsAfterAnswer() bool { return p.Behav == bDieAfter || p.Behav == bLinger }
 
 // Base is the plugin name nri derives from the file name (everything after the first dash).
 func (p Plugin) Base() string {
@@ -80,7 +94,7 @@ func (p Plugin) File() string { return p.Idx + "-" + p.Base() }
 // reachesConfigure: the process registers and is sent Configure.
 func (p Plugin) reachesConfigure() bool {
 	switch p.Behav {
-	case bOK, bCfgFail, bSyncFail, bDie, bDieAfter, bHang:
+	case bOK, bCfgFail, bSyncFail, bDie, bDieAfter, bLinger, bHang:
 		return true
 	}
 	return false
@@ -89,7 +103,7 @@ func (p Plugin) reachesConfigure() bool {
 // startsUp: the process gets through registration, configuration and synchronization.
 func (p Plugin) startsUp() bool {
 	switch p.Behav {
-	case bOK, bDie, bDieAfter, bHang:
+	case bOK, bDie, bDieAfter, bLinger, bHang:
 		return true
 	}
 	return false
@@ -103,6 +117,19 @@ type Entry struct {
 	Content string `json:"content,omitempty"` // files: text | empty | probe (a copy of the probe binary)
 	Inner   string `json:"inner,omitempty"`   // dirs: name of an executable probe placed inside
 }
+
+// Ext is an external plugin: an in-process stub that connects to nri's socket. It registers
+// in slot Join and leaves (stops its stub) in slot Leave; slot i lies before request i
+// (slot len(ops) lies between the last request and Stop). Leave = len(ops)+1: it stays until
+// after Stop. In a slot, leaves happen before joins.
+type Ext struct {
+	Idx   string `json:"idx"`
+	Name  string `json:"name"`
+	Join  int    `json:"join"`
+	Leave int    `json:"leave"`
+}
+
+func (x Ext) Key() string { return "ext/" + x.Idx + "-" + x.Name }
 
 // Conf is one regular file in the drop-in directory.
 type Conf struct {
@@ -118,7 +145,8 @@ type C18Case struct {
 	NoConfDir   bool     `json:"no_conf_dir,omitempty"`   // only with no drop-in files
 	Ops         []string `json:"ops"`                     // lifecycle requests, in order
 	Held        []string `json:"held,omitempty"`          // descriptors the runtime holds: file dir unix tcp pipe
-	Listen      bool     `json:"listen,omitempty"`        // external plugin socket enabled
+	Listen      bool     `json:"listen,omitempty"`        // external plugin socket enabled (always with Exts)
+	Exts        []Ext    `json:"exts,omitempty"`
 	SyncPods    int      `json:"sync_pods,omitempty"`
 	SyncCtrs    int      `json:"sync_ctrs,omitempty"`
 }
@@ -189,7 +217,7 @@ func genC18(t *rapid.T) C18Case {
 			p.Stem, p.Behav, p.K, p.Garbage = src.Idx+"-"+src.Stem, src.Behav, src.K, src.Garbage
 		} else {
 			p.Stem = rapid.SampledFrom(stemPool).Draw(t, "stem")
-			pool := []string{bOK, bOK, bOK, bOK, bOK, bOK, bExit, bExit, bCloseFD, bCfgFail, bSyncFail, bDie, bDie, bDieAfter, bGarbage}
+			pool := []string{bOK, bOK, bOK, bOK, bOK, bOK, bExit, bExit, bCloseFD, bCfgFail, bSyncFail, bDie, bDie, bDieAfter, bDieAfter, bLinger, bLinger, bGarbage}
 			if sleepers == 0 {
 				pool = append(pool, bSleep)
 			}
@@ -207,7 +235,7 @@ func genC18(t *rapid.T) C18Case {
 			case bGarbage:
 				p.Garbage = rapid.SampledFrom([]string{"empty", "text", "elf"}).Draw(t, "garbage")
 			}
-			if p.Behav == bDie || p.Behav == bDieAfter || p.Behav == bHang {
+			if p.failsAtEvent() {
 				// K = len(ops)+1: the fault never triggers, the plugin lives until Stop
 				p.K = rapid.IntRange(1, len(c.Ops)+1).Draw(t, "k")
 			}
@@ -309,6 +337,31 @@ func genC18(t *rapid.T) C18Case {
 	}
 	c.Held = held
 	c.Listen = rapid.Bool().Draw(t, "listen")
+	// external plugins joining and leaving between the requests
+	nExt := rapid.SampledFrom([]int{0, 0, 1, 1, 1, 2}).Draw(t, "nexts")
+	var afterFailure []int // slots that directly follow a launched plugin's own failure
+	for _, p := range c.Plugins {
+		if p.failsAfterAnswer() && p.K <= len(c.Ops) {
+			afterFailure = append(afterFailure, p.K)
+		}
+	}
+	for i := 0; i < nExt; i++ {
+		x := Ext{Idx: rapid.SampledFrom(idxPool).Draw(t, "xidx"), Name: fmt.Sprintf("e%d", i)}
+		if len(afterFailure) > 0 && rapid.IntRange(0, 2).Draw(t, "xafter") != 0 {
+			x.Join = rapid.SampledFrom(afterFailure).Draw(t, "xjoin_after")
+		} else {
+			x.Join = rapid.IntRange(0, len(c.Ops)).Draw(t, "xjoin")
+		}
+		if rapid.Bool().Draw(t, "xstays") {
+			x.Leave = len(c.Ops) + 1
+		} else {
+			x.Leave = rapid.IntRange(x.Join+1, len(c.Ops)+1).Draw(t, "xleave")
+		}
+		c.Exts = append(c.Exts, x)
+	}
+	if len(c.Exts) > 0 {
+		c.Listen = true
+	}
 	c.SyncPods = rapid.IntRange(0, 3).Draw(t, "syncpods")
 	c.SyncCtrs = rapid.IntRange(0, 3).Draw(t, "syncctrs")
 	return c
@@ -327,7 +380,7 @@ func validate(c C18Case) error {
 			return fmt.Errorf("bad stem %q", p.Stem)
 		}
 		switch p.Behav {
-		case bOK, bExit, bCloseFD, bCfgFail, bSyncFail, bDie, bDieAfter, bGarbage:
+		case bOK, bExit, bCloseFD, bCfgFail, bSyncFail, bDie, bDieAfter, bLinger, bGarbage:
 		case bSleep:
 			sleepers++
 		case bHang:
@@ -390,6 +443,25 @@ func validate(c C18Case) error {
 		if !isOpKind(o) {
 			return fmt.Errorf("unknown op %q", o)
 		}
+	}
+	xn := map[string]bool{}
+	for _, x := range c.Exts {
+		if len(x.Idx) != 2 || x.Idx[0] < '0' || x.Idx[0] > '9' || x.Idx[1] < '0' || x.Idx[1] > '9' {
+			return fmt.Errorf("external plugin index %q is not two digits", x.Idx)
+		}
+		if x.Name == "" || xn[x.Name] || strings.ContainsAny(x.Name, "/\x00 ") {
+			return fmt.Errorf("bad or duplicate external plugin name %q", x.Name)
+		}
+		xn[x.Name] = true
+		if x.Join < 0 || x.Join > len(c.Ops) || x.Leave <= x.Join || x.Leave > len(c.Ops)+1 {
+			return fmt.Errorf("external plugin %s: join %d / leave %d out of range", x.Name, x.Join, x.Leave)
+		}
+	}
+	if len(c.Exts) > 0 && !c.Listen {
+		return fmt.Errorf("external plugins need the socket")
+	}
+	if len(c.Exts) > 8 {
+		return fmt.Errorf("too many external plugins")
 	}
 	return nil
 }
